@@ -227,7 +227,7 @@ PROPS = {
         ],
     },
     'C14': {
-        'v_units': ['fifo', 'rwall'],
+        'v_units': ['fifo', 'rwall', 'pipeset'],
         'k_units': ['readchar'],
         'level': 'other',
         'explanation': (
@@ -256,7 +256,8 @@ PROPS = {
             'success implies that a read reported the end of input on a non-empty buffer slice (the reserve arithmetic guarantees room). '
             'The system side (Read / Write) is an assumed synchronous model; await points are dropped.'
             ' Unit readchar (Kani, bounded; shared with C18): the byte-wise reader of the read built-in returns the same character and consumes '
-            'exactly its bytes under every chunking of the underlying reads (inputs of <= 4 bytes): a short read is never taken for the end of input.'),
+            'exactly its bytes under every chunking of the underlying reads (inputs of <= 4 bytes): a short read is never taken for the end of input.'
+            " Unit pipeset (Verus, shared with C08) also carries a clause of C14: PipeSet::move_to_stdin_stdout wires each pipeline element so that its standard input IS the previous pipe and its standard output IS the next pipe (same open file descriptions), whatever descriptor numbers pipe() handed out - including 0 and 1 when the shell's own standard input or output is closed - so that what one command writes is what the next one reads."),
         'trusted_base': ['Verus 0.2026.09.13 + Z3', 'vstd models of VecDeque::pop_front/len and of slice::iter_mut', '/verif/tools/vextract.py'],
         'assumptions': [
             'unit rwall: model traits Read / Write (synchronous, &mut self, ghost streams written / consumed / at_eof per descriptor); Concurrent<S> reduced to the wrapped system; TemporaryNonBlockingGuard replaced by a move of the reference (descriptor flags are not modelled); yield_for_read / yield_for_write assumed not to change what this task transferred; EAGAIN = EWOULDBLOCK = 11; assumed contracts of Vec::capacity / reserve / extend(repeat_n) and of reading into the tail of a Vec',
@@ -266,6 +267,7 @@ PROPS = {
             'OpenFileDescription reaches its file through Rc<RefCell<Inode>>, which is not modelled: the file behind it is a ghost view, its poll_write step is assumed to append some beginning of the buffer (what the verified FileBody::poll_write does for a FIFO), and the test "is a FIFO" is a helper call',
             'the functions are checked under the precondition that the file is a FIFO holding at most PIPE_SIZE bytes; their Regular/Terminal/Directory/Symlink arms are unreachable under it and unverified',
             'a match arm `A {..} | B {..} => body` is checked as two arms with the same body (rewrite rule or-arm-split)',
+            'unit pipeset: see C08 (the system traits Pipe / Close / Dup are one synchronous model trait over a ghost descriptor table)',
         ],
     },
     'C16': {
